@@ -30,6 +30,21 @@ CLAIMS = {
             "model vs library on every run plus the sign|hash CLI pipeline evaluated on the binary's own outputs "
             "(the pipeline identity is checked differentially, its model-level theorem lives with C06/C16).",
             "Assumed semantics of hex::decode_to_slice, k256 Signature::from_scalars, {:064x} formatting."),
+    "C03": ("Coq theorems (Props/C03.v: derive refines BIP-32 CKDpriv along the whole path — C03_refines: derive = the strict BIP-32 "
+            "fold for every seed and every in-range path, C03_never_other_key, completeness up to the IL = 0 deviation, errors are "
+            "exactly BIP-32's invalid cases, v|2^31 = v+2^31, hardened/normal HMAC inputs, chain-code carry, totality) with "
+            "HMAC-SHA512 and point multiplication as opaque functions (only |hmac| = 64 assumed); model (instantiated with the "
+            "Gallina HMAC/secp256k1) vs hdk::derive on every run, plus an independent Python BIP-32 and the BIP-32 test vectors.",
+            "HMAC-SHA512 and secp256k1 are executable Gallina re-implementations (Prim/), validated by vectors and differentially, "
+            "not verified; k256 SecretKey::from_slice / scalar addition semantics assumed."),
+    "C18": ("Coq theorems (Props/C18.v: the prefix parser accepts exactly 0x + hex digits, the matcher is equivalent to "
+            "'lower-case digits are a prefix of the address's hex form' for every length, odd or even, either case; the search "
+            "returns only a generated candidate whose address matches; C18_result: for EVERY winning worker index the returned "
+            "phrase matches; errors surface as errors; totality of the parser incl. the u8 arithmetic) — partial: real thread "
+            "interleavings are over-approximated by the arbitrary winner, sampled on the binary; the binary is checked by "
+            "feeding every printed phrase back to `address`, and under an LD_PRELOAD getentropy shim the exact phrase is "
+            "compared with an independent oracle.",
+            "std::thread/mpsc semantics (a received message was sent by a worker), clap parsing, the shim; termination of the search is not claimed."),
     "C07": ("Coq theorems (Props/C07.v: the code-shaped rlp::{len,bytes,uint,list} equal the Yellow-Paper encoder, the u8 header "
             "arithmetic never overflows, strict-decoder round trip dec(enc i ++ rest) = (i, rest) for every item tree, the strict "
             "decoder accepts only canonical encodings, injectivity / prefix-freeness, minimal integers) for unbounded payloads; "
